@@ -25,6 +25,19 @@ class Broke(Exception):
     pass
 
 
+class Continued(Exception):
+    pass
+
+
+def _is_log_stmt(st):
+    """LOGGER.debug(...) style statement: no effect on the decision being interpreted."""
+    if isinstance(st, ast.Expr) and isinstance(st.value, ast.Call) and isinstance(st.value.func, ast.Attribute):
+        base = st.value.func.value
+        name = base.id if isinstance(base, ast.Name) else base.attr if isinstance(base, ast.Attribute) else ''
+        return name.upper().startswith('LOG') and st.value.func.attr in ('debug', 'info', 'log', 'warning')
+    return False
+
+
 def sign(x):
     return (x > 0) - (x < 0)
 
@@ -126,6 +139,8 @@ def run_stmts(stmts, env):
     for st in stmts:
         if isinstance(st, ast.Expr) and isinstance(st.value, ast.Constant):
             continue
+        if _is_log_stmt(st):
+            continue
         if isinstance(st, ast.Return):
             raise Returned(ev(st.value, env) if st.value is not None else None)
         if isinstance(st, ast.If):
@@ -165,6 +180,8 @@ def run_stmts(stmts, env):
                         env[e.id] = v
                 try:
                     run_stmts(st.body, env)
+                except Continued:
+                    continue
                 except Broke:
                     broke = True
                     break
@@ -172,6 +189,8 @@ def run_stmts(stmts, env):
                 run_stmts(st.orelse, env)
         elif isinstance(st, ast.Break):
             raise Broke()
+        elif isinstance(st, ast.Continue):
+            raise Continued()
         elif isinstance(st, ast.Pass):
             continue
         elif isinstance(st, ast.Raise):
